@@ -66,6 +66,42 @@ def header_constants():
     return nops
 
 
+def forged_selfref():
+    """[(label, image)]: LB_FUNCTION images whose funcdef holds, as constant 0, a function that refers back to that
+    same funcdef (LB_FUNCDEF_REF 0). outer / def / inner = environments announced by the outer function, used by
+    the funcdef, announced by the inner function; inner environments are given inline or as references."""
+    h = open(os.path.join(REPO, "src", "include", "janet.h")).read()
+    hasenvs = int(re.search(r"#define JANET_FUNCDEF_FLAG_HASENVS\s+(0x[0-9A-Fa-f]+)", h).group(1), 16)
+    ops = re.findall(r"\b(JOP_[A-Z0-9_]+)\s*,", re.search(r"enum JanetOpCode \{(.*?)JOP_INSTRUCTION_COUNT", h, re.S).group(1))
+    ret, ldu = ops.index("JOP_RETURN"), ops.index("JOP_LOAD_UPVALUE")
+
+    def i32(n):
+        return bytes([0xCD, (n >> 24) & 255, (n >> 16) & 255, (n >> 8) & 255, n & 255])
+    env_inline = bytes([0x00, 0x01, 0x2A])          # off-stack environment with one value, 42
+    out = []
+    for outer in range(3):
+        for nd in range(3):
+            for inner in range(3):
+                for flagged in ((True,) if nd else (False, True)):
+                    for inner_env in ("inline", "ref"):
+                        if inner_env == "ref" and (inner == 0 or outer == 0):
+                            continue
+                        for code in ("ldu", "ret"):
+                            if code == "ldu" and nd == 0:
+                                continue
+                            img = bytes([0xD7, outer]) + i32(hasenvs if flagged else 0) + bytes([1, 0, 0, 0, 1, 2])
+                            if flagged:
+                                img += bytes([nd])
+                            img += bytes([0xD7, inner, 0xDC, 0x00])
+                            img += (env_inline if inner_env == "inline" else bytes([0xDB, 0x00])) * inner
+                            img += (bytes([ldu, 0, 0, 0]) if code == "ldu" else bytes([ret, 0, 0, 0])) + bytes([ret, 0, 0, 0])
+                            img += bytes([0x00]) * nd
+                            img += env_inline * outer
+                            out.append(("selfref outer=%d def=%d inner=%d %s %s%s" % (outer, nd, inner, inner_env, code,
+                                                                                     "" if flagged == bool(nd) else " flagged"), img))
+    return out
+
+
 def build_native():
     src = os.path.join(HERE, "c10native.c")
     h = hashlib.sha256()
@@ -499,7 +535,7 @@ def replay_text(ctx, case):
     return "\n".join(head + body)
 
 
-FAMILY_RANK = {"baseline": 0, "struct": 1, "trunc": 2, "subst": 3, "pairs": 4, "free": 5, "asm-base": 6, "asm": 7}
+FAMILY_RANK = {"baseline": 0, "struct": 1, "trunc": 2, "subst": 3, "pairs": 4, "free": 5, "forged": 5, "asm-base": 6, "asm": 7}
 
 
 def report(chk, ctx, tally):
@@ -625,6 +661,15 @@ def main():
             run_cases(chk, ctx, tally, "free", cases)
             chk.cov["free_strings_max_length"] = maxlen
             completed.append("all byte strings of length <= %d over %d bytes" % (maxlen, len(model.FREE_ALPHABET)))
+
+        # 2b. forged self-referential function images: a function that sits in the constants of the very funcdef it
+        # refers to (back reference to a funcdef that is still being read), for every combination of the three
+        # environment counts involved. marshal never writes this shape, and no single edit of a seed reaches it.
+        if want("forged"):
+            cases = [Case("forged", label, "[:raw %s]" % jdn(b), b, field="forged/selfref") for label, b in forged_selfref()]
+            run_cases(chk, ctx, tally, "forged", cases)
+            chk.cov["forged_selfref_images"] = len(cases)
+            completed.append("%d forged self-referential function images" % len(cases))
 
         # 3. structure-aware single-field mutations (seeds in ascending size)
         if want("struct"):
